@@ -11,6 +11,10 @@
 //   W <script> | Y <script>                     zix_sem_wait / zix_sem_try_wait over scripted results
 //   D <clk> <now_sec> <now_nsec> <s> <ns> <script> [<count>]   zix_sem_timed_wait with scripted clock + results on
 //                                               a semaphore whose real count is <count> (default 0)
+//   N <errno|0> <count>                         zix_sem_post with an injected sem_post result
+//   V <v> <n>                                   real: value v, n posts, then try_wait until refused
+//   Z <ms> <every_ms>                           real: timed wait interrupted by a signal every every_ms
+//   a line may start with @<n>: errno is set to n before every library call under test
 //   Q <ms>                                      real: count 1; a timed waiter is parked just before its first clock /
 //                                               blocking call while a competitor takes the unit; it must time out
 //   I <init> <progs> <sched>                    lock-step run of real threads on a real semaphore
@@ -107,8 +111,18 @@ int __wrap_sem_getvalue(sem_t* s, int* v)
   return __real_sem_getvalue(s, v);
 }
 
+static int post_expected, post_calls, post_result;
+
 int __wrap_sem_post(sem_t* s)
 {
+  if (script_on && post_expected) { // N cases: the one call zix_sem_post prescribes, with an injected result
+    ++post_calls;
+    if (post_result) {
+      errno = post_result;
+      return -1;
+    }
+    return 0;
+  }
   note_unexpected("post");
   return __real_sem_post(s);
 }
@@ -175,6 +189,7 @@ int __wrap_clock_gettime(clockid_t id, struct timespec* ts)
       return -1;
     }
     *ts = clock_now;
+    ts->tv_sec += (time_t)(clock_calls - 1); // the clock moves on: one second per reading
     return 0;
   }
   park_point();
@@ -264,6 +279,20 @@ static double mono_now(void)
   return (double)t.tv_sec + (double)t.tv_nsec / 1e9;
 }
 
+// ------------------------------------------------------------------ errno at entry
+// A case line may start with "@<n>": errno is set to n immediately before every library call under test (the
+// result must not depend on what an earlier, unrelated call left in errno).
+static int entry_errno;
+
+static ZixStatus e_sem_wait(ZixSem* s) { errno = entry_errno; return zix_sem_wait(s); }
+static ZixStatus e_sem_try_wait(ZixSem* s) { errno = entry_errno; return zix_sem_try_wait(s); }
+static ZixStatus e_sem_post(ZixSem* s) { errno = entry_errno; return zix_sem_post(s); }
+static ZixStatus e_sem_timed_wait(ZixSem* s, uint32_t sec, uint32_t ns)
+{
+  errno = entry_errno;
+  return zix_sem_timed_wait(s, sec, ns);
+}
+
 // ------------------------------------------------------------------ scripted cases
 static void case_loop(char kind, const char* scr)
 {
@@ -271,7 +300,7 @@ static void case_loop(char kind, const char* scr)
   zix_sem_init(&sem, 0);
   parse_script(scr);
   script_on         = 1;
-  const ZixStatus st = (kind == 'W') ? zix_sem_wait(&sem) : zix_sem_try_wait(&sem);
+  const ZixStatus st = (kind == 'W') ? e_sem_wait(&sem) : e_sem_try_wait(&sem);
   script_on         = 0;
   if (script_exhausted) {
     printf("blocked || calls=%d unexp=%s\n", script_calls - 1, unexpected[0] ? unexpected : "-");
@@ -292,7 +321,7 @@ static void case_deadline(char** tok, int n)
   const uint32_t ns = (uint32_t)strtoul(tok[5], NULL, 10);
   parse_script(tok[6]);
   script_on          = 1;
-  const ZixStatus st = zix_sem_timed_wait(&sem, s, ns);
+  const ZixStatus st = e_sem_timed_wait(&sem, s, ns);
   script_on          = 0;
   if (script_exhausted) {
     fputs("blocked", stdout);
@@ -300,12 +329,13 @@ static void case_deadline(char** tok, int n)
     printf("st=%s", status_name(st));
   }
   if (ts_calls) {
-    printf(" dl=%lld.%lld", (long long)ts_seen.tv_sec, (long long)ts_seen.tv_nsec);
+    // dl = what the FIRST sem_timedwait call got; same = every later call of this wait got that very deadline
+    printf(" dl=%lld.%lld same=%d", (long long)ts_seen.tv_sec, (long long)ts_seen.tv_nsec, ts_same);
   } else {
-    fputs(" dl=-", stdout);
+    fputs(" dl=- same=-", stdout);
   }
-  printf(" || calls=%d same=%d clk=%d/%d unexp=%s\n", script_exhausted ? script_calls - 1 : script_calls, ts_same,
-         clock_calls, clock_id_seen, unexpected[0] ? unexpected : "-");
+  printf(" || calls=%d clk=%d/%d unexp=%s\n", script_exhausted ? script_calls - 1 : script_calls, clock_calls,
+         clock_id_seen, unexpected[0] ? unexpected : "-");
   zix_sem_destroy(&sem);
 }
 
@@ -332,11 +362,11 @@ static void install_handler(void)
 static ZixStatus do_op(char op)
 {
   switch (op) {
-  case 'P': return zix_sem_post(&g_sem);
-  case 'W': return zix_sem_wait(&g_sem);
-  case 'Y': return zix_sem_try_wait(&g_sem);
-  case 'T': return zix_sem_timed_wait(&g_sem, 20U, 0U);
-  case 't': return zix_sem_timed_wait(&g_sem, 0U, 30000000U);
+  case 'P': return e_sem_post(&g_sem);
+  case 'W': return e_sem_wait(&g_sem);
+  case 'Y': return e_sem_try_wait(&g_sem);
+  case 'T': return e_sem_timed_wait(&g_sem, 20U, 0U);
+  case 't': return e_sem_timed_wait(&g_sem, 0U, 30000000U);
   default: return ZIX_STATUS_BAD_ARG;
   }
 }
@@ -560,7 +590,7 @@ static void case_lockstep(char** tok)
   for (int i = 0; i < n; ++i) {
     int guard = 0;
     while (busy[i] && !is_done(&w[i]) && guard++ < 1000) {
-      zix_sem_post(&g_sem);
+      e_sem_post(&g_sem);
       msleep_real(200);
     }
     pthread_mutex_lock(&w[i].mu);
@@ -607,12 +637,12 @@ static void* smoke_main(void* arg)
     switch (s->role) {
     case 'p':
       atomic_fetch_add(&g_shadow, 1); // before the post
-      st = zix_sem_post(&g_sem);
+      st = e_sem_post(&g_sem);
       s->errs += (st != ZIX_STATUS_SUCCESS);
       break;
     case 'w':
     case 'z':
-      st = (s->role == 'w') ? zix_sem_wait(&g_sem) : zix_sem_timed_wait(&g_sem, 30U, 3000000000U);
+      st = (s->role == 'w') ? e_sem_wait(&g_sem) : e_sem_timed_wait(&g_sem, 30U, 3000000000U);
       if (st == ZIX_STATUS_SUCCESS) {
         took_one(); // after the successful wait
         ++s->succ;
@@ -621,11 +651,11 @@ static void* smoke_main(void* arg)
       }
       break;
     default:
-      st = zix_sem_try_wait(&g_sem);
+      st = e_sem_try_wait(&g_sem);
       if (st == ZIX_STATUS_SUCCESS) {
         took_one();
         atomic_fetch_add(&g_shadow, 1);
-        s->errs += (zix_sem_post(&g_sem) != ZIX_STATUS_SUCCESS); // hand the unit back
+        s->errs += (e_sem_post(&g_sem) != ZIX_STATUS_SUCCESS); // hand the unit back
       } else if (st != ZIX_STATUS_UNAVAILABLE) {
         ++s->errs;
       }
@@ -687,7 +717,7 @@ typedef struct {
 static void* poster_main(void* arg)
 {
   msleep_real(1000L * ((Poster*)arg)->delay_ms);
-  zix_sem_post(&g_sem);
+  e_sem_post(&g_sem);
   return NULL;
 }
 
@@ -703,7 +733,7 @@ static void case_real_timeout(char** tok)
     pthread_create(&th, NULL, poster_main, &p);
   }
   const double    t0 = mono_now();
-  const ZixStatus st = zix_sem_timed_wait(&g_sem, s, ns);
+  const ZixStatus st = e_sem_timed_wait(&g_sem, s, ns);
   const double    dt = mono_now() - t0;
   if (p.delay_ms >= 0) {
     pthread_join(th, NULL);
@@ -731,7 +761,7 @@ static void* parked_waiter(void* arg)
   Parked* p = (Parked*)arg;
   park_me   = 1; // stop at the first clock / blocking call made on behalf of the timed wait
   const double t0 = mono_now();
-  p->st      = zix_sem_timed_wait(&g_sem, 0U, p->ns);
+  p->st      = e_sem_timed_wait(&g_sem, 0U, p->ns);
   p->elapsed = mono_now() - t0;
   park_me    = 0;
   atomic_store(&p->done, 1);
@@ -755,7 +785,7 @@ static void case_parked(char** tok)
     msleep_real(100);
   }
   // the waiter has seen whatever it wanted to see; now the competitor takes the only unit
-  const ZixStatus ts = zix_sem_try_wait(&g_sem);
+  const ZixStatus ts = e_sem_try_wait(&g_sem);
   const double    t1 = mono_now();
   atomic_store(&released, 1);
   // no unit is available at the moment of the blocking call: TIMEOUT is due ms after now (generous slack)
@@ -767,11 +797,93 @@ static void case_parked(char** tok)
     printf("st=%s try=%s late=0\n", status_name(p.st), status_name(ts));
   } else {
     printf("st=HANG try=%s late=1\n", status_name(ts));
-    zix_sem_post(&g_sem); // let the thread go
+    e_sem_post(&g_sem); // let the thread go
   }
   pthread_join(th, NULL);
   alarm(0);
   atomic_store(&released, 0);
+  zix_sem_destroy(&g_sem);
+}
+
+// ------------------------------------------------------------------ post
+static void case_post_scripted(char** tok)
+{
+  ZixSem sem;
+  zix_sem_init(&sem, (unsigned)strtoul(tok[2], NULL, 10));
+  parse_script("-");
+  post_result   = atoi(tok[1]);
+  post_calls    = 0;
+  post_expected = 1;
+  script_on     = 1;
+  const ZixStatus st = e_sem_post(&sem);
+  script_on     = 0;
+  post_expected = 0;
+  printf("st=%s || posts=%d unexp=%s\n", status_name(st), post_calls, unexpected[0] ? unexpected : "-");
+  zix_sem_destroy(&sem);
+}
+
+// initial value v, n posts, then try_wait until refused: nothing may be lost however far the producer is ahead
+static void case_post_volume(char** tok)
+{
+  const unsigned v = (unsigned)strtoul(tok[1], NULL, 10);
+  const long     n = atol(tok[2]);
+  ZixSem         sem;
+  zix_sem_init(&sem, v);
+  long bad_posts = 0;
+  for (long i = 0; i < n; ++i) {
+    bad_posts += (e_sem_post(&sem) != ZIX_STATUS_SUCCESS);
+  }
+  long      taken = 0;
+  ZixStatus st    = ZIX_STATUS_SUCCESS;
+  while (taken <= (long)v + n + 8 && (st = e_sem_try_wait(&sem)) == ZIX_STATUS_SUCCESS) {
+    ++taken;
+  }
+  printf("bad_posts=%ld taken=%ld then=%s\n", bad_posts, taken, status_name(st));
+  zix_sem_destroy(&sem);
+}
+
+// ------------------------------------------------------------------ a timed wait that keeps being interrupted
+static void* interrupted_waiter(void* arg)
+{
+  Parked* p       = (Parked*)arg;
+  const double t0 = mono_now();
+  p->st           = e_sem_timed_wait(&g_sem, 0U, p->ns);
+  p->elapsed      = mono_now() - t0;
+  atomic_store(&p->done, 1);
+  return NULL;
+}
+
+static void case_interrupted_timeout(char** tok)
+{
+  const int ms = atoi(tok[1]), every_ms = atoi(tok[2]);
+  Parked    p;
+  pthread_t th;
+  memset(&p, 0, sizeof(p));
+  p.ns = (uint32_t)ms * 1000000U;
+  zix_sem_init(&g_sem, 0);
+  install_handler();
+  alarm(30);
+  pthread_create(&th, NULL, interrupted_waiter, &p);
+  const double t0    = mono_now();
+  const double limit = (double)ms / 1000.0 + 1.5; // the ORIGINAL deadline plus generous slack
+  int          sent  = 0;
+  while (!atomic_load(&p.done) && mono_now() - t0 < limit) {
+    msleep_real(1000L * every_ms);
+    if (!atomic_load(&p.done)) {
+      pthread_kill(th, SIGUSR1);
+      ++sent;
+    }
+  }
+  const int late = !atomic_load(&p.done);
+  if (late) {
+    zix_sem_post(&g_sem); // stop interrupting; let it go
+  }
+  pthread_join(th, NULL);
+  alarm(0);
+  const double want  = (double)ms / 1000.0;
+  const int    early = !late && p.st == ZIX_STATUS_TIMEOUT && p.elapsed < want * 0.999 - 0.0002;
+  printf("st=%s early=%d late=%d\n", late ? "HANG" : status_name(p.st), early, late);
+  (void)sent;
   zix_sem_destroy(&g_sem);
 }
 
@@ -782,7 +894,13 @@ int main(void)
   char*  tok[10];
   setvbuf(stdout, NULL, _IOLBF, 0);
   while (vgetline(&line, &cap)) {
-    const int n = vsplit(line, tok, 10);
+    int n = vsplit(line, tok, 10);
+    entry_errno = 0;
+    if (n > 0 && tok[0][0] == '@') {
+      entry_errno = atoi(tok[0] + 1);
+      --n;
+      memmove(tok, tok + 1, (size_t)n * sizeof(tok[0]));
+    }
     if (n == 2 && !strcmp(tok[0], "E")) {
       printf("st=%s\n", status_name(zix_errno_status(atoi(tok[1]))));
     } else if (n == 2 && (!strcmp(tok[0], "W") || !strcmp(tok[0], "Y"))) {
@@ -791,6 +909,12 @@ int main(void)
       case_deadline(tok, n);
     } else if (n == 2 && !strcmp(tok[0], "Q")) {
       case_parked(tok);
+    } else if (n == 3 && !strcmp(tok[0], "N")) {
+      case_post_scripted(tok);
+    } else if (n == 3 && !strcmp(tok[0], "V")) {
+      case_post_volume(tok);
+    } else if (n == 3 && !strcmp(tok[0], "Z")) {
+      case_interrupted_timeout(tok);
     } else if (n == 4 && !strcmp(tok[0], "I")) {
       case_lockstep(tok);
     } else if (n == 8 && !strcmp(tok[0], "K")) {
